@@ -337,6 +337,15 @@ def _check(run: core.Run, focus, replay=None):
     core.assert_repo_tree()
     quick = run.tier == "quick"
     rng = random.Random(run.seed)
+    if focus == "C05":
+        # second clause of C05: link clean-up through the state database (specs/LinkState.tla)
+        from . import linkstate
+
+        if replay and replay.get("replay", {}).get("module") == "linkstate":
+            linkstate.check(run, replay=replay["replay"]["case"])
+            return run.finish()
+        if not replay:
+            linkstate.check(run)
     for cfg, lt in [("Checkout_quick.cfg", "copy")] + ([] if quick else [("Checkout_quick_hard.cfg", "hard"), ("Checkout_quick_sym.cfg", "sym")]):
         validate.run_design(run, "MC_Checkout", cfg, workers=16,
                             required_actions=["Begin", "RemoveDel", "PromptDel", "RemoveNew", "PromptNew", "Create", "End", "Crash"],
